@@ -734,7 +734,12 @@ def main(ctx):
             probs += c13_ext.check_effh(r, scale, True, r['norm_test'] <= 1e-8 and abs(r['norm'] - 1) <= 1e-8)
             hist['effh_probes'] = hist.get('effh_probes', 0) + int(bool(r.get('effh')))
             if r.get('E_trunc_last') is not None:
+                # "up to the reported truncation": update_stats['E_trunc'] of the last update is the energy after its truncation (full contraction
+                # of the environments around the new tensors) minus the reported eigenvalue
                 hist['max_dev_E_plus_E_trunc_last'] = max(hist.get('max_dev_E_plus_E_trunc_last', 0.0), float(abs(r['E'] + r['E_trunc_last'] - Eexp) / scale))
+                if abs(r['E'] + r['E_trunc_last'] - Eexp) > 1e-8 * scale:
+                    probs.append('reported E + reported E_trunc of the last update = %.12g + %.3e differs from <psi|H|psi> = %.12g of the returned state'
+                                 % (r['E'], r['E_trunc_last'], Eexp))
             hist['degenerate_gs'] += deg > 1
             hist['truncated'] += r['max_trunc_err'] > 1e-14
             hist['mixer'] += opts.get('mixer') is not None
@@ -797,7 +802,13 @@ def main(ctx):
                     probs.append('VUMPS run() returned a %s, documented: MPS' % r.get('returned_type'))
                 for kk in range(int(case.get('rerun', 0))):
                     t_ = 'run%d_' % kk
-                    if r[t_ + 'norm_test'] > 1e-6 or r[t_ + 'E_mpo'] < e_exact - 1e-7 or abs(r[t_ + 'E_mpo'] - e_exact) > 5e-3 or \
+                    cn0 = r.get(t_ + 'canon') or {}
+                    if cn0.get('E_before') is not None and abs(r[t_ + 'E_mpo'] - cn0['E_before']) > 1e-5 and abs(cn0['E_before'] - r[t_ + 'E']) < 5e-3:
+                        ctx.fail('oracle', 'infinite %s DMRG, run %d of the same engine: post_run_cleanup calls psi.canonical_form() on the final state (norm error '
+                                 '%.1e); <H>/site is %.10g before and %.10g after that call, run() reports E = %.10g (exact %.10g)'
+                                 % (case['engine'] + '-site', kk, cn0.get('norm_err_before') or 0.0, cn0['E_before'], r[t_ + 'E_mpo'], r[t_ + 'E'], e_exact),
+                                 {'stream': stream, 'case': case}, match_key='C13:DMRGEngine._canonicalize:infinite:canonical_form-changes-energy')
+                    elif r[t_ + 'norm_test'] > 1e-6 or r[t_ + 'E_mpo'] < e_exact - 1e-7 or abs(r[t_ + 'E_mpo'] - e_exact) > 5e-3 or \
                             (abs(r[t_ + 'E'] - r[t_ + 'E_mpo']) > 1e-4 and r[t_ + 'sweeps'] <= opts.get('max_sweeps', 1000)):
                         probs.append('run %d of the same engine: E = %.10g, <H>/site = %.10g, exact %.10g, norm_test %.2e'
                                      % (kk, r[t_ + 'E'], r[t_ + 'E_mpo'], e_exact, r[t_ + 'norm_test']))
@@ -815,7 +826,8 @@ def main(ctx):
                          % (case['engine'] + '-site', opts.get('update_env', nsc // 2), cn.get('norm_err_before') or 0.0, cn['E_before'], r['E_mpo'], r['E'], e_exact),
                          {'stream': stream, 'case': case, 'impl': {k: r.get(k) for k in ('E', 'E_mpo', 'sweeps', 'chi', 'canon')}},
                          match_key='C13:DMRGEngine._canonicalize:infinite:canonical_form-changes-energy')
-            elif min(r['E'], r['E_mpo']) < e_exact - 1e-7:
+            elif r['E_mpo'] < e_exact - 1e-7 or (r['E'] < e_exact - 1e-7 and (converged or stream != 'dmrg-infinite-options')):
+                # (the E of an unconverged infinite run - energy gained per added site in the last iteration - is not variational)
                 probs.append('infinite: energy per site %.10g / %.10g below the exact value %.10g' % (r['E'], r['E_mpo'], e_exact))
             elif abs(r['E_mpo'] - e_exact) > 5e-3 or (abs(r['E'] - r['E_mpo']) > 1e-4 and converged):
                 probs.append('infinite: E = %.10g, <H>/site = %.10g, exact %.10g' % (r['E'], r['E_mpo'], e_exact))
@@ -912,6 +924,9 @@ def main(ctx):
         'normalisation, canonical form and the charge sector of the returned state are required, and the warning must be issued exactly when the final '
         'energy is > -1e-8.  Overlaps with the projected-out states are required to vanish up to 1e-6 + 10 sqrt(largest truncation error of the run): '
         'the projection acts on the local eigenproblem, the truncation afterwards is not projected',
+        'C13 option strata: norm_tol = None (not a documented value; the code then skips the final canonicalisation, and a truncated run returns a state '
+        'whose stored singular values are those of earlier updates) is not drawn in the strata with the canonical-form oracle; the canonical form is '
+        'required up to max(1e-8, norm_tol_final) as documented for norm_tol_final',
         'C13 option strata: diag_method ED_all is documented to leave the charge sector of the initial state; required instead: the returned state has a '
         'definite value of every conserved charge, E >= lowest energy of that sector, and (untruncated two-site DMRG with mixer) E = lowest energy of all sectors',
         'C13 option strata: resuming from a checkpoint (resume_data with sweeps / sweep_stats / mixer, resume_run) belongs to C18 and is not drawn here; '
